@@ -17,12 +17,19 @@ import (
 func zc(c types.Currency) string { return "(" + c.ExactString() + ")%Z" }
 
 // ordered returns the outputs sorted by value (descending); among equal values
-// the ones that were actually selected come first, so that the model's
-// largest-first selection names the same outputs.
+// the ones that were actually selected come first, in the order they were
+// selected (sort.Slice is not stable), so that the model's largest-first
+// selection names the same outputs in the same order.
 func ordered(av []availOut, funded []types.SiacoinOutputID) []availOut {
-	f := map[types.SiacoinOutputID]bool{}
-	for _, id := range funded {
-		f[id] = true
+	f := map[types.SiacoinOutputID]int{}
+	for i, id := range funded {
+		f[id] = i + 1
+	}
+	rank := func(id types.SiacoinOutputID) int {
+		if r, ok := f[id]; ok {
+			return r
+		}
+		return 1 << 30
 	}
 	var conf, unconf []availOut
 	for _, a := range av {
@@ -37,7 +44,7 @@ func ordered(av []availOut, funded []types.SiacoinOutputID) []availOut {
 			if c := l[i].Value.Cmp(l[j].Value); c != 0 {
 				return c > 0
 			}
-			return f[l[i].ID] && !f[l[j].ID]
+			return rank(l[i].ID) < rank(l[j].ID)
 		}
 	}
 	sort.SliceStable(conf, less(conf))
@@ -152,7 +159,8 @@ func basisTerm(s script, calls []string) string {
 	switch s.Fault {
 	case "req-unknown-basis":
 		return "BUnknown"
-	case "req-wrong-basis":
+	case "req-wrong-basis", "req-foreign-input":
+		// proofs that were not made for the named basis: the verdict is the chain manager's
 		for _, c := range calls {
 			if strings.HasPrefix(c, "CUpdate ") {
 				return "(BClaimed (Some " + strings.TrimPrefix(c, "CUpdate ") + "))"
